@@ -107,7 +107,8 @@ pub fn gen_cfg(rng: &mut Rng, tier: Tier, kt0: bool) -> OptCfg {
         1 => rng.range_u64(1, steps.max(1)), // arbitrary, mostly non-multiples
         _ => (steps / loops_target).max(1),
     };
-    let kt_start = if kt0 { 0.0 } else { *rng.pick(&[0.0, 1e-3, 0.1, 0.1, 1.0, 5.0]) };
+    // (a zero temperature is drawn with either sign: -0.0 == 0)
+    let kt_start = if kt0 { *rng.pick(&[0.0, 0.0, 0.0, 0.0, -0.0]) } else { *rng.pick(&[0.0, -0.0, 1e-3, 0.1, 0.1, 1.0, 5.0]) };
     let (kt_finish, kt_ratio) = match rng.below(6) {
         0 => (None, None),
         1 => (Some(0.0), None),
